@@ -44,15 +44,32 @@ int main(){
   printf("Definition gen_desc_parts : Z := %d%%Z.\n", (int)SCPIDEFINE_DESCRIPTION_MAX_PARTS);
   printf("Definition gen_config : list Z := [%d; %d; %d; %d]%%Z.  (* USE_DEVICE_DEPENDENT_ERROR_INFORMATION USE_MEMORY_ALLOCATION_FREE USE_CUSTOM_DTOSTRE HAVE_STDBOOL *)\n",
          (int)USE_DEVICE_DEPENDENT_ERROR_INFORMATION,(int)USE_MEMORY_ALLOCATION_FREE,(int)USE_CUSTOM_DTOSTRE,(int)HAVE_STDBOOL);
-  /* character classes of the lexer: for every byte value (as the lexer passes it: plain char for its own predicates,
-     (uint8_t) for the <ctype.h> ones) whether the predicate holds */
-#define CC(name, expr) do { printf("Definition gen_cc_%s : list N := [", name); int first_ = 1; \
-    for (int b = 0; b < 256; b++) { int c = (int)(char) b; int u = (int)(uint8_t) b; (void) c; (void) u; if (expr) { printf("%s%d", first_ ? "" : "; ", b); first_ = 0; } } \
+  /* character classes of the lexer, obtained from the recognisers' behaviour (not from the names of lexer.c's static
+     helpers, which a refactoring may change): for every byte value b, does the recogniser accept b in the position that
+     the class governs?  L(f, text, n) = return value of recogniser f on the n bytes of text. */
+#define L(f, n) (st_.buffer = tb_, st_.pos = tb_, st_.len = (n), tk_.type = SCPI_TOKEN_UNKNOWN, tk_.len = 0, f(&st_, &tk_))
+#define CC(name, prep, expr) do { printf("Definition gen_cc_%s : list N := [", name); int first_ = 1; \
+    for (int b = 0; b < 256; b++) { char tb_[8]; lex_state_t st_; scpi_token_t tk_; prep; if (expr) { printf("%s%d", first_ ? "" : "; ", b); first_ = 0; } } \
     printf("]%%N.\n"); } while (0)
-  CC("isws", isws(c)); CC("isbdigit", isbdigit(c)); CC("isqdigit", isqdigit(c)); CC("isplusmn", isplusmn(c));
-  CC("isH", isH(c)); CC("isB", isB(c)); CC("isQ", isQ(c)); CC("isE", isE(c)); CC("isascii7", isascii7bit(c));
-  CC("isexpr", isProgramExpression(c)); CC("isnzdigit", isNonzeroDigit(u));
-  CC("isdigit", isdigit(u)); CC("isalpha", isalpha(u)); CC("isalnum", isalnum(u)); CC("isxdigit", isxdigit(u));
+  CC("isws", (tb_[0] = (char) b), L(scpiLex_WhiteSpace, 1) == 1);
+  CC("isbdigit", (tb_[0] = '#', tb_[1] = 'B', tb_[2] = (char) b), L(scpiLex_NondecimalNumericData, 3) == 3 && tk_.type == SCPI_TOKEN_BINNUM);
+  CC("isqdigit", (tb_[0] = '#', tb_[1] = 'Q', tb_[2] = (char) b), L(scpiLex_NondecimalNumericData, 3) == 3 && tk_.type == SCPI_TOKEN_OCTNUM);
+  CC("isxdigit", (tb_[0] = '#', tb_[1] = 'H', tb_[2] = (char) b), L(scpiLex_NondecimalNumericData, 3) == 3 && tk_.type == SCPI_TOKEN_HEXNUM);
+  CC("isH", (tb_[0] = '#', tb_[1] = (char) b, tb_[2] = '8'), L(scpiLex_NondecimalNumericData, 3) == 3 && tk_.type == SCPI_TOKEN_HEXNUM);
+  CC("isQ", (tb_[0] = '#', tb_[1] = (char) b, tb_[2] = '0'), L(scpiLex_NondecimalNumericData, 3) == 3 && tk_.type == SCPI_TOKEN_OCTNUM);
+  CC("isB", (tb_[0] = '#', tb_[1] = (char) b, tb_[2] = '0'), L(scpiLex_NondecimalNumericData, 3) == 3 && tk_.type == SCPI_TOKEN_BINNUM);
+  CC("isplusmn", (tb_[0] = (char) b, tb_[1] = '1'), L(scpiLex_DecimalNumericProgramData, 2) == 2 && !(b >= '0' && b <= '9') && b != '.');
+  CC("isE", (tb_[0] = '1', tb_[1] = (char) b, tb_[2] = '1'), L(scpiLex_DecimalNumericProgramData, 3) == 3 && !(b >= '0' && b <= '9') && b != '.');
+  CC("isdigit", (tb_[0] = (char) b), L(scpiLex_DecimalNumericProgramData, 1) == 1);
+  CC("isnzdigit", (tb_[0] = '#', tb_[1] = (char) b, tb_[2] = '0', tb_[3] = '0', tb_[4] = '0', tb_[5] = '0'), (L(scpiLex_ArbitraryBlockProgramData, 2), st_.pos - st_.buffer == 2) && b != '#');
+  CC("isalpha", (tb_[0] = (char) b), L(scpiLex_CharacterProgramData, 1) == 1);
+  CC("ismnem", (tb_[0] = 'A', tb_[1] = (char) b), L(scpiLex_CharacterProgramData, 2) == 2);
+  CC("isascii7", (tb_[0] = '\'', tb_[1] = (char) b, tb_[2] = '\''), b != '\'' && L(scpiLex_StringProgramData, 3) == 3);
+  CC("isexpr", (tb_[0] = '(', tb_[1] = (char) b, tb_[2] = ')'), L(scpiLex_ProgramExpression, 3) == 3);
+#undef CC
+#define CC(name, expr) do { printf("Definition gen_cc_%s : list N := [", name); int first_ = 1; \
+    for (int b = 0; b < 256; b++) { int u = (int)(uint8_t) b; if (expr) { printf("%s%d", first_ ? "" : "; ", b); first_ = 0; } } \
+    printf("]%%N.\n"); } while (0)
   /* <ctype.h> as utils.c, parser.c and expression.c rely on it (strncasecmp, islower in patternSeparatorShortPos, the isspace of strtol) */
   CC("islower", islower(u)); CC("isupper", isupper(u)); CC("isspace", isspace(u));
   printf("Definition gen_tolower : list N := ["); for (int b = 0; b < 256; b++) printf("%s%d", b ? "; " : "", tolower(b)); printf("]%%N.\n");
